@@ -65,7 +65,12 @@ C14_ServeLeavesNothing ==
   Quiet => \A t \in DOMAIN tn : (tn[t].serves > 0 /\ tn[t].serveRets = tn[t].serves) => t \notin Seqset(rq.hlive)
 C14_RegistryEmptyAtEnd == (rq.at /\ rq.final) => (rq.enum = <<>> /\ rq.hlive = <<>> /\ rq.g = 0)
 C10_NoNewTunnels == ~BadHas("serve-after-stop-started")
-C10_StopMeansStopped == ~BadHas("stop-returned-before-serve")
+\* ... and once Stop has returned every Serve call on that server has returned (judged at quiescent points: Serve
+\* releases Stop from a deferred call, a hair before it returns to its own caller, so the two log lines may swap)
+C10_StopMeansStopped ==
+  /\ ~BadHas("stop-returned-before-serve")
+  /\ Quiet => \A t \in DOMAIN tn : (tn[t].stopCalls > 0 /\ tn[t].stopRets = tn[t].stopCalls) =>
+                 \A u \in DOMAIN tn : (tn[u].srv = tn[t].srv /\ tn[u].known) => tn[u].serveRets = tn[u].serves
 
 \* Stop ends the tunnels and returns; GracefulStop returns once no tunnel of its server is left (whether an
 \* IDLE tunnel keeps it waiting is finding D8 and is not judged here: only "nothing left, still waiting")
